@@ -48,7 +48,8 @@ struct C21 : drv::Harness
 			else if (w < 72) p.ops.push_back(Op("drop", { rng.below(2) }));          // arg: drop right after the previous op (bytes still in flight) or after delivery
 			else if (w < 79) p.ops.push_back(Op("restartA"));
 			else if (w < 86) p.ops.push_back(Op("restartB"));
-			else if (w < 90) p.ops.push_back(Op("refuse", { rng.range(1, 4) }));       // the next reconnect finds the acceptor unreachable for this many connect attempts
+			else if (w < 89) p.ops.push_back(Op("refuse", { rng.range(1, 4) }));
+			else if (w < 94) p.ops.push_back(Op("flaky_reconnect", { rng.range(0, 6), rng.below(2), rng.below(2) }));   // drop, reconnect, send at once (arg1: initiator, arg2: acceptor), drop again after arg0 x latency/2, reconnect       // the next reconnect finds the acceptor unreachable for this many connect attempts
 			else p.ops.push_back(Op("silence", { rng.range(1, 2000) }));
 		}
 		return p;
@@ -72,6 +73,7 @@ struct C21 : drv::Harness
 		auto teardown_conns = [&]() { A.drop_conn(); B.drop_conn(); B.destroy_session(); };
 		auto both_continuous = [&]() { return A.ses && B.ses && A.ses->st() == States::st_continuous && B.ses->st() == States::st_continuous; };
 		auto established = [&]() { return A.up() && B.up() && States::is_established(A.ses->st()) && States::is_established(B.ses->st()) && A.ses->st() != States::st_logon_received && B.ses->st() != States::st_logon_received; };
+		bool connect_nowait = false;
 		auto connect = [&]() -> bool
 		{
 			++conn_no;
@@ -92,6 +94,7 @@ struct C21 : drv::Harness
 				sim::count("initiator_start_failed_retrying");
 				delete A.conn; A.conn = new ClientConnection(A.sock, addr, *A.ses, (unsigned)hb, pm_thread);
 			}
+			if (connect_nowait) return true;
 			// bounded wait for both sides to be (re-)established: logon + any resend exchange
 			bool ok = sim::settle_until([&]() { return both_continuous() || !A.up() || !B.up(); }, 3000000000ll, 1000000);   // (connect retries have already slept inside start())
 			return ok && both_continuous();
@@ -136,6 +139,27 @@ struct C21 : drv::Harness
 				sim::advance(2000000); sim::settle();
 				reconnect(when);
 			}
+			else if (op.k == "flaky_reconnect")
+			{
+				// a connection that dies during its logon exchange, with application messages sent right after start()
+				sim::advance(4 * lat + 1000000); sim::settle();
+				link.drop(); expect_down = true; ++drops; sim::advance(2000000); sim::settle();
+				teardown_conns(); connect_nowait = true; connect(); connect_nowait = false; ++reconnects;
+				for (int k = 0; k < 2; ++k)
+				{
+					Side& sd = k == 0 ? A : B; if (!op.arg(1 + k) || !sd.up()) continue;
+					// an initiator has recovered its numbers and sent its Logon when start() returns; an acceptor must not send before
+					// it has processed the Logon (its numbers are only recovered then)
+					if (k == 1 && !States::is_established(sd.ses->st())) { sim::advance(2 * lat + 200000); sim::settle(); if (!sd.up() || !States::is_established(sd.ses->st())) continue; }
+					std::string id = sd.name + std::to_string(++sd.counter);
+					if (sd.ses->send(order(id))) { sd.sent.push_back(id); sim::count("send_during_logon_exchange"); }
+				}
+				sim::advance(op.arg(0) * lat / 2); sim::settle();
+				if (resend_in_progress()) { replay_lost = true; sim::count("probe_fault_while_replay_in_flight"); }
+				link.drop(); ++drops; sim::count("fault_drop_during_logon_exchange");
+				sim::advance(2000000); sim::settle();
+				reconnect(when);
+			}
 			else if (op.k == "restartA" || op.k == "restartB")
 			{
 				sim::advance(4 * lat + 1000000); sim::settle();                    // restarts happen between operations
@@ -146,7 +170,7 @@ struct C21 : drv::Harness
 				if (op.k == "restartA") A.destroy_session();
 				reconnect(when);
 			}
-			if (op.k != "drop" && op.k[0] != 'r') { sim::advance(rng_delay(i)); sim::settle(); }
+			if (op.k != "drop" && op.k[0] != 'r' && op.k[0] != 'f') { sim::advance(rng_delay(i)); sim::settle(); }
 			supervise(when);
 		}
 		// final phase: faults have stopped; give the pair bounded time to finish recovery
